@@ -1094,6 +1094,8 @@ func r11_5(c *Ctx, t *tables) {
 					c.ok(k, in.Pos(), "%s", why)
 				} else if why := guardedIndexMore(f, base, idx, b); why != "" {
 					c.ok(k, in.Pos(), "%s", why)
+				} else if c.bceProven(in.Pos()) {
+					c.ok(k, in.Pos(), bceWhy)
 				} else {
 					c.bad(k, in.Pos(), "index %s[%s] is not shown to be in range: it can panic", base.Name(), idx.Name())
 				}
@@ -1104,6 +1106,8 @@ func r11_5(c *Ctx, t *tables) {
 				k := key("slice")
 				if why := guardedSlice(f, x, b); why != "" {
 					c.ok(k, in.Pos(), "%s", why)
+				} else if c.bceProven(in.Pos()) {
+					c.ok(k, in.Pos(), bceWhy)
 				} else {
 					c.bad(k, in.Pos(), "slice bounds of %s are not shown to be in range: it can panic", x.X.Name())
 				}
@@ -1143,8 +1147,8 @@ func r11_5(c *Ctx, t *tables) {
 						if st, ok := in2.(*ssa.Store); ok {
 							if _, ok := isFieldAddr(st.Addr, fld); ok {
 								any = true
-								if !nonNilMapValue(st.Val) {
-									allMade = false
+								if !nonNilMapValue(st.Val) && !copyConstructStore(st) {
+									allMade = false // (a clone of the same field of another object is non-nil when that one is)
 								}
 							}
 						}
